@@ -9,6 +9,7 @@ P_one == {1}
 
 M_one == {<<3, 2>>}
 M_two == {<<3, 2>>, <<-7, 1>>}
+M_zero == {<<3, 2>>, <<0, 1>>}            \* zero is a value too
 M_pos == {<<3, 2>>, <<7, 1>>}
 M_exp == {<<3, 2>>, <<-2, 1>>}
 K_two == {<<-2, 1>>, <<5, 3>>}
